@@ -220,8 +220,39 @@ func (v *FnVerifier) typeInv(val Term, st *State, quiet bool) {
 		return
 	}
 	if val.Sort == SRef {
-		v.ctx.Assert(T(SBool, "(< (birth %s) %s)", val.S, st.now.S))
+		now := st.now
+		// a reference read from an array that has not been written since function entry
+		// was already stored there at entry, so the object it names is older than the entry clock
+		if strings.Contains(val.S, "!0| ") || strings.Contains(val.S, "!0 ") {
+			if strings.HasPrefix(val.S, "(select ") && !strings.Contains(val.S[8:], "!") || entryOnly(val.S) {
+				now = v.now0
+			}
+		}
+		v.ctx.Assert(T(SBool, "(< (birth %s) %s)", val.S, now.S))
 	}
+}
+
+// entryOnly: the term selects from an entry-version array (name!0).
+func entryOnly(s string) bool {
+	if !strings.HasPrefix(s, "(select ") {
+		return false
+	}
+	rest := s[len("(select "):]
+	var arr string
+	if strings.HasPrefix(rest, "|") {
+		end := strings.Index(rest[1:], "|")
+		if end < 0 {
+			return false
+		}
+		arr = rest[:end+2]
+	} else {
+		end := strings.IndexAny(rest, " )")
+		if end < 0 {
+			return false
+		}
+		arr = rest[:end]
+	}
+	return strings.HasSuffix(strings.Trim(arr, "|"), "!0")
 }
 
 // loadCell reads a value of type t stored at ref (pointee or slice element).
